@@ -19,25 +19,28 @@ structure Inv (s : St) : Prop where
   size : s.bits.size = nbits s
   hdr : 0 < hdrBlk s ∧ ∀ i, i < hdrBlk s → bit s.bits i = true
   bm : ∀ i, bmOffBlk s ≤ i → i < bmOffBlk s + bmLenBlk s → bit s.bits i = true
+  /-- the bitmap lies behind the header and inside the range it describes -/
+  hb : hdrBlk s ≤ bmOffBlk s
+  bm_in : bmOffBlk s + bmLenBlk s ≤ nbits s
+  bmoff_al : s.bmoff % bsz s = 0
+  bmlen_al : s.bmlen % bsz s = 0
+  /-- the page holds at least one block -/
+  au : 0 < aunitBlk s
 
-/-- everything but index, cache and bitmap is unchanged -/
+/-- the geometry of the file is unchanged: everything but index, cache, bitmap content, file size and statistics -/
 structure Frame (s s' : St) : Prop where
   bpow : s'.bpow = s.bpow
   aunit : s'.aunit = s.aunit
   hdrlen : s'.hdrlen = s.hdrlen
   bmoff : s'.bmoff = s.bmoff
   bmlen : s'.bmlen = s.bmlen
-  fsize : s'.fsize = s.fsize
-  stats : s'.stats = s.stats
-  saved : s'.saved = s.saved
   strict : s'.strict = s.strict
 
-theorem Frame.refl (s : St) : Frame s s := ⟨rfl, rfl, rfl, rfl, rfl, rfl, rfl, rfl, rfl⟩
+theorem Frame.refl (s : St) : Frame s s := ⟨rfl, rfl, rfl, rfl, rfl, rfl⟩
 
 theorem Frame.trans {a b c : St} (h1 : Frame a b) (h2 : Frame b c) : Frame a c :=
   ⟨h2.bpow.trans h1.bpow, h2.aunit.trans h1.aunit, h2.hdrlen.trans h1.hdrlen, h2.bmoff.trans h1.bmoff,
-   h2.bmlen.trans h1.bmlen, h2.fsize.trans h1.fsize, h2.stats.trans h1.stats, h2.saved.trans h1.saved,
-   h2.strict.trans h1.strict⟩
+   h2.bmlen.trans h1.bmlen, h2.strict.trans h1.strict⟩
 
 theorem Frame.nbits {s s' : St} (h : Frame s s') : Fsm.nbits s' = Fsm.nbits s := by simp [Fsm.nbits, h.bmlen]
 theorem Frame.bsz {s s' : St} (h : Frame s s') : bsz s' = bsz s := by simp [Fsm.bsz, h.bpow]
@@ -60,7 +63,7 @@ theorem delFbk_bits (s : St) (o l : Nat) : (delFbk s o l).bits = s.bits := by
 
 theorem delFbk_frame (s : St) (o l : Nat) : Frame s (delFbk s o l) := by
   unfold delFbk delFbk2; repeat' split
-  all_goals exact ⟨rfl, rfl, rfl, rfl, rfl, rfl, rfl, rfl, rfl⟩
+  all_goals exact ⟨rfl, rfl, rfl, rfl, rfl, rfl⟩
 
 theorem delFbk_lf {s : St} (hs : s.tree.Pairwise KeyLt) (hl : LfOk s) (o l : Nat) : LfOk (delFbk s o l) := by
   unfold delFbk delFbk2
@@ -82,7 +85,7 @@ theorem putFbk_bits (s : St) (o l : Nat) : (putFbk s o l).bits = s.bits := by
 
 theorem putFbk_frame (s : St) (o l : Nat) : Frame s (putFbk s o l) := by
   unfold putFbk; repeat' split
-  all_goals exact ⟨rfl, rfl, rfl, rfl, rfl, rfl, rfl, rfl, rfl⟩
+  all_goals exact ⟨rfl, rfl, rfl, rfl, rfl, rfl⟩
 
 theorem mem_putFbk (s : St) (o l : Nat) (x : Ext) : x ∈ (putFbk s o l).tree ↔ x = (o, l) ∨ x ∈ s.tree := by
   unfold putFbk
